@@ -191,24 +191,31 @@ def checkNames (ds od : Dict) (m : Mach) : List String → Option PyErr
             | none => checkNames ds od m rest
           | _, _ => some .AttributeError
 
-/-- … and for `'num_skipped_reps'` (against a new SUM result when `self` has none yet) -/
+/-- … and for `'num_skipped_reps'` (against a new SUM result when `self` has none yet); as in
+    `checkNames` the two objects are looked up first and read when `_assert_can_merge` is called -/
 def checkNsr (m : Mach) (s o : Nat) : Option PyErr :=
   if (dictGet? (dictOf m o) nsr).isNone then none
   else
-    let target : Except PyErr Res :=
-      if (dictGet? (dictOf m s) nsr).isNone then .ok (fresh nsr .sum false 0)
+    let target : Except PyErr (Option Nat) :=          -- `none` = the new SUM result
+      if (dictGet? (dictOf m s) nsr).isNone then .ok none
       else match lastOf m (dictOf m s) nsr with
         | .error e => .error e
-        | .ok a => match m.res[a]? with
-          | some r => .ok r
-          | none => .error .AttributeError
+        | .ok a => .ok (some a)
     match target with
     | .error e => some e
-    | .ok ra => match lastOf m (dictOf m o) nsr with
+    | .ok ta => match lastOf m (dictOf m o) nsr with
       | .error e => some e
-      | .ok b => match m.res[b]? with
-        | none => some .AttributeError
-        | some rb => mergeGuard ra rb
+      | .ok b =>
+        let ra : Except PyErr Res := match ta with
+          | none => .ok (fresh nsr .sum false 0)
+          | some a => match m.res[a]? with
+            | some r => .ok r
+            | none => .error .AttributeError
+        match ra with
+        | .error e => some e
+        | .ok ra => match m.res[b]? with
+          | none => some .AttributeError
+          | some rb => mergeGuard ra rb
 
 /-- `add_new_result(name, SUMTYPE, 0)` = `add_result(Result.create(name, SUMTYPE, 0, 0))`:
     the new object has already received one `update(0)` -/
